@@ -16,43 +16,62 @@ MODEL_OK = "C16.model_ok"
 SPEC_OK = "C16.spec_ok"
 SHARD = 400
 EXHAUSTIVE = {"quick": False, "thorough": False}
-RULE = ("(1) every text over the alphabet {a, b, ' ', TAB} up to length 6 (5 in the quick tier) x columns {1,2,3,5} x "
+RULE = ("(0) word-length grid: 2 and 3 words with lengths in {1, c-1, c, c+1, 2c, 2c+1} for columns c in {2,3,4,5}, gaps "
+        "' ' and TAB+' ', formatting changing at every character (plus the plain-str form) - every combination of exact "
+        "fill / one short / one over, and a non-first over-long word followed by a word that fits behind its last piece; "
+        "(1) every text over the alphabet {a, b, ' ', TAB} up to length 6 (5 in the quick tier) x columns {1,2,3,5} x "
         "layouts {plain str, one formatted run, a new run with different attributes at every character, seeded random "
         "cuts with empty runs} (quick: two of the four layouts per text, rotating with the seed); (2) random texts up to "
-        "40 characters over letters, wide and combining characters and the whitespace characters SPACE TAB LF VT FF CR "
-        "FS NBSP EM-SPACE IDEOGRAPHIC-SPACE, words longer than / equal to / shorter than columns in 1..12, run "
-        "boundaries inside words and inside whitespace blocks, shared-base + per-run attributes, empty runs, str and "
-        "FmtStr arguments, texts without any word. The set of `\\s` characters of each text is computed with the real "
-        "re module and carried in the case. Observation: per-character cells of every returned line against the model "
-        "and against the independent greedy reference. non-trivial = at least two words; distinct = distinct "
-        "(argument, columns)")
+        "40 characters over letters, wide and combining characters, ZERO WIDTH SPACE (not `\\s`) and the whitespace "
+        "characters SPACE TAB LF VT FF CR FS US NEL NBSP EM-SPACE LINE-SEPARATOR IDEOGRAPHIC-SPACE, words longer than / "
+        "equal to / shorter than columns in 1..12, run boundaries inside words and inside whitespace blocks, shared-base "
+        "+ per-run attributes, empty runs, str and FmtStr arguments, texts without any word; (3) columns 0, -1, -2 "
+        "(outside the claim: model only). The set of `\\s` characters of each text is computed with the real re module "
+        "(the pattern linesplit uses is r'\\s+' on a str, i.e. Unicode whitespace) and carried in the case, so the "
+        "model's is_space and the regex agree on every generated character by construction. Observation: per-character "
+        "cells (character + graphic state) of every returned line against the model, against the independent greedy "
+        "reference, and against the clauses of the property one by one. non-trivial = at least two words and "
+        "columns >= 1; distinct = distinct (argument, columns)")
 TRUSTED = [
     "Coq 8.16.1 kernel incl. vm_compute; Print Assumptions: closed under the global context",
-    "reference functions coq/Spec/StrSpec.v: blocks / inner_gaps (maximal blocks), chop, greedy_wrap (greedy first-fit "
-    "wrap), meet_sgr (what all cells of a gap share)",
-    "Python's `\\s` as data: the whitespace characters of each text are classified by the real re module in the harness",
+    "reference functions coq/Spec/StrSpec.v: blocks / inner_gaps (maximal blocks of non-space / of space items between "
+    "two words), chop, greedy_wrap (greedy first-fit wrap), meet_sgr (what all cells of a gap share), sgr_le, interleave "
+    "- sanity-proved: C16_gaps_lie_between_consecutive_words (they partition the text), "
+    "C16_joining_space_of_a_uniform_gap / _shows_only_shared_formatting",
+    "Python's `\\s` as data: the whitespace characters of each text are classified by the real re module in the harness; "
+    "the theorems hold for an arbitrary classifier is_space (only `is_space U+0020` is assumed, for conservation)",
     "harness canonicaliser (FmtStr runs -> Coq literal), parser of coqc's answer",
-    "modelled, not verified: re.finditer(r'\\s+') as the maximal-block scanner over is_space, zip/range/list.extend, "
-    "floor division",
+    "modelled, not verified: re.finditer(r'\\s+') as the maximal-block scanner over is_space (Model/StrMeth.ws_spans), "
+    "zip/range/list.extend, floor division; slicing string[a:b] is the proved C06 model",
 ]
-ASSUMPTIONS = ["columns >= 1 (columns = 0 divides by zero, negative columns are modelled but not claimed)",
+ASSUMPTIONS = ["columns >= 1 (columns = 0 divides by zero unless there is no word, negative columns are modelled but not "
+               "claimed)",
                "text free of ESC '[' and U+009B when given as a str (fmtstr() would parse it)",
-               "line length is counted in characters (len), as the code does, not in display columns"]
-LEVEL_TEXT = ("Machine-checked theorems (Coq) for the model of linesplit over the proved slicing model (C06): for every "
-              "FmtStr or str and every columns >= 1 the lines are exactly the greedy first-fit wrap of the maximal "
-              "non-whitespace blocks of the per-character list, joined by one space formatted with what all cells of "
-              "the replaced gap share; hence no line exceeds columns, non-space cells are conserved in order, no line "
-              "starts or ends with whitespace, no words give no lines; tied to the code by an exhaustive small-scope "
-              "sweep and random cases compared inside Coq with model and reference")
+               "line length is counted in characters (len), as the code does, not in display columns",
+               "is_space 32 = true (Python's `\\s` matches U+0020) for the conservation theorem only"]
+LEVEL_TEXT = ("Machine-checked theorems (Coq, all closed under the global context) for the model of linesplit over the "
+              "proved slicing model (C06), for EVERY FmtStr or str and EVERY columns >= 1, by induction (no size bound): "
+              "no exception (the model's Raise outcomes - IndexError of lines[-1] / shared_atts, ZeroDivisionError - are "
+              "unreachable); the lines are cell by cell (characters and formatting) the greedy first-fit wrap of the "
+              "maximal non-whitespace blocks of the per-character list, a word longer than a line cut into full-length "
+              "pieces, two words on a line joined by one U+0020 formatted with what all cells of the replaced gap share "
+              "(= the gap's formatting when uniform; never an attribute some gap cell lacks); the same on the text "
+              "alone; 1 <= len(line) <= columns; every line begins and ends with a non-whitespace character; the "
+              "non-whitespace cells are conserved in order with their formatting; the gaps lie between consecutive "
+              "words (partition theorem); no lines iff no words. Tied to the code by a word-length grid, an exhaustive "
+              "small-scope sweep and random cases compared inside Coq with model and reference")
 LEVEL_NOTE = ("Trusted: Coq kernel, Spec/StrSpec.v references, `\\s` classification by the real re module, canonicaliser. "
-              "Modelled: the regex engine on \\s+ as a maximal-block scanner")
-TECHNIQUE = ("Coq proof: scanner/blocks correspondence by induction over the text, induction over the word list with the "
-             "current line as accumulator, on top of the C06 slicing theorem; section variable is_space; exhaustive "
-             "small-scope + random in-Coq differential correspondence")
+              "Modelled: the regex engine on \\s+ as a maximal-block scanner. Nothing partial: all clauses of the DESIGN "
+              "statement are proved")
+TECHNIQUE = ("Coq proof: scanner-vs-blocks/inner_gaps correspondence by induction over the text with a prefix accumulator; "
+             "word_to_lines = chop via Z division bounds; induction over the (word, gap) pairs with the current line as "
+             "accumulator (loop_wrap) on top of the C06 slicing theorem and shared_atts_meet; consequences (fit, "
+             "conservation, text-level wrap via map-commutation lemmas, partition) proved on the reference; section "
+             "variable is_space; grid + exhaustive small-scope + random in-Coq differential correspondence")
 
 SMALL = "ab \t"
-WS = " \t\n\x0b\x0c\r\x1c\xa0 　"
-LETTERS = "abcdefgXYZ.,-é中̀"
+WS = " \t\n\x0b\x0c\r\x1c\xa0\u2003\u3000\x1f\x85\u2028"   # all matched by `\s` on str patterns (checked per case with re)
+LETTERS = "abcdefgXYZ.,-\xe9\u4e2d\u0300\u200b"     # U+200B ZERO WIDTH SPACE is NOT `\s`: part of a word
 A1 = [2, 0, 1, 0, 0, 0, 0, 0]
 A2 = [0, 5, 0, 0, 0, 1, 0, 0]
 A3 = [2, 5, 1, 0, 0, 1, 0, 2]
@@ -116,7 +135,25 @@ def rand_big(rng):
     return {"arg": arg, "columns": cols}
 
 
+def grid(tier):
+    """word-length grid: 2 and 3 words whose lengths sit around columns and its multiples, so that every
+    combination of (tail of a cut word / exact fill / one short / one over) x (next word fits / just not) occurs,
+    also for a NON-first over-long word followed by a word that fits behind its last piece"""
+    letters = "abc"
+    for cols in (2, 3, 4, 5):
+        lens = sorted({1, cols - 1, cols, cols + 1, 2 * cols, 2 * cols + 1} - {0})
+        for k in (2, 3):
+            for combo in itertools.product(lens, repeat=k):
+                words = [letters[i] * n for i, n in enumerate(combo)]
+                for gap in (" ", "\t "):
+                    text = gap.join(words)
+                    yield {"arg": ["f", [[ch, [A1, A2, A3][i % 3]] for i, ch in enumerate(text)]], "columns": cols}
+                    if tier == "thorough" or gap == " ":
+                        yield {"arg": ["s", text], "columns": cols}
+
+
 def generate(rng, tier):
+    yield from grid(tier)
     maxlen = 6 if tier == "thorough" else 5
     salt = rng.randrange(1 << 30)
     rot = rng.randrange(4)
